@@ -35,7 +35,9 @@ Lit(form, t) ==
 Comment(form, t) == NoiseText(form, t)
 
 Pre == <<80, 40>>            \* P(
-Post == <<41>>               \* )
+Post == <<41, 81>>           \* )Q  -- Q is not in the alphabet, so a content
+                             \* that closes the bracket itself and comments the
+                             \* rest out ( */)# ) cannot pass for inert
 LegalStr(form, t) == Decode(Lit(form, t)) # <<"bad">>
 LegalComment(form, t) ==
   /\ Clean(Pre \o Comment(form, t) \o Post)
@@ -72,10 +74,11 @@ FillInert ==
   /\ \A f \in StrForms :
        LegalStr(f, Text) =>
          /\ Tokens(Pre \o Lit(f, Text) \o Post)
-              = <<<<80>>, <<40>>, Lit(f, Text), <<41>>>>
+              = <<<<80>>, <<40>>, Lit(f, Text), <<41>>, <<81>>>>
          /\ Len(Statements(Pre \o Lit(f, Text) \o Post)) = 1
          /\ (f \in {"dq", "tq"} => Value(f, Text) = Text)
   /\ \A f \in CommentForms :
        LegalComment(f, Text) =>
-         Tokens(Pre \o Comment(f, Text) \o Post) = <<<<80>>, <<40>>, <<41>>>>
+         Tokens(Pre \o Comment(f, Text) \o Post)
+           = <<<<80>>, <<40>>, <<41>>, <<81>>>>
 =============================================================================
